@@ -188,6 +188,23 @@ func (p *Pool) sval(s *scalar.Scalar, v []byte) *scalar.Scalar {
 	if canonical {
 		n = 9
 	}
+	// the state the object is in immediately before it receives v: two times in three it has just been given a small
+	// value through one of the dedicated setters (a constant, a 64-bit integer, a copy of such an object) - whatever an
+	// implementation remembers about "small" scalars must not survive the mutator that follows
+	switch p.rng.IntN(8) {
+	case 0:
+		s.SetUint64(p.rng.Uint64())
+	case 1:
+		s.SetUint64(uint64(p.rng.IntN(256)))
+	case 2:
+		s.One()
+	case 3:
+		s.Zero()
+	case 4:
+		s.Set(other)
+	case 5:
+		s.Set(scalar.One())
+	}
 	switch p.rng.IntN(n) {
 	case 0:
 		s.SetBits(v)
